@@ -5,6 +5,18 @@ ROOT = os.path.dirname(os.path.dirname(os.path.abspath(__file__)))
 props = [json.loads(l) for l in open(os.path.join(ROOT, "properties.jsonl"))]
 
 CHECKS = {
+ "C07": dict(engine="total", design="5 C07",
+   technique="TLC model checking of the unwrap/slice preconditions as invariants/Asserts and of termination under fairness (MC_Lexer Accounting, MC_Driver StackDiscipline, MC_TableFill LookupsDefined, MC_BuilderFifo/MC_DriverLive Terminates) + replay of every engine's TLC-generated input set, seeded mutation fuzzing and at-the-bounds stress inputs on the real generate under catch_unwind, watchdogs and a child process with the default stack",
+   text="Design level: the reasons the Rust code cannot panic are invariants of the operational specifications (byte accounting of the tokenizer, stack/node discipline of the parse loop, defined FIRST/shift/goto lookups, no goto conflict) and termination is checked under fairness. Conformance: all ~35 000 atom strings, ~23 000 edited files, the 12 383-grammar universe and front-end shaped files go through the real generate; 40 000 (quick) to 1.5 M (thorough) mutated repository files run in process under catch_unwind with a 60 s watchdog; 19 stress inputs at the stated bounds (64 KiB, 2000-element lists of every syntactic kind, type nesting 256, terminal-less/variant-less/unproductive grammars) run in a child process with the default 8 MiB stack so that aborts are seen.",
+   note="`Within bounded time` is observed with generous watchdogs, not proved; deeper recursion than the stated bounds is outside C07. Release build of kiki."),
+ "C14": dict(engine="determinism", design="5 C14, 3.4",
+   technique="TLC model checking of TableFill.tla with hash-map iteration as nondeterministic choice (all copy orders end in the same table: FillOrderIrrelevant, FinalTableIsLALR) + repeated real generate calls in fresh threads and separate processes with byte comparison + hook-recorded iteration orders (distinct orders observed are counted)",
+   text="Every place where the implementation iterates a hash collection on the way to an output (build_as_is over two HashMaps) is a nondeterministic choice in TableFill.tla; TLC explores all orders on the bounded universe and shows one final table. The conflict scan is an ordered scan (state index, item order) over the sorted automaton. The real generate is run on 470 (quick) to 6 000 inputs - conflicting grammars, classics, repository files, should_fail fixtures, random invalid files - 9 x 4 (quick) / 49 x 12 (thorough) times in fresh threads and processes; results must be byte-identical; the hook's recorded fill orders show that different hash seeds were really exercised (the check fails as a tool error if fewer than 10 inputs showed two orders).",
+   note="Sampling of hash seeds is finite; the exhaustive-order argument holds on the bounded model."),
+ "C16": dict(engine="layout", design="5 C16, 3.2.1",
+   technique="TLC model checking of MC_Layout (every alternation of pool tokens and layout atoms reads back as the intended tokens under the declarative lexical rules) + re-layout of whole files from real token spans and comparison of the real generate results modulo hash line / position map",
+   text="MC_Layout explores every text built from up to 2 (quick) / 3 (thorough, core pools) tokens of a 12-token pool and 10 layout atoms (nothing where NeedsSep allows, space, tab, LF, CR LF, NBSP, ideographic space, comments ended by LF / CR LF, comment with CR inside, comment at end without newline): LexRef reads back exactly the intended tokens with starts equal to accumulated byte lengths (1.7 M states). Whole files - repository grammars, random valid/invalid files covering every error class, conflicting grammars, token-level syntax errors, appended lexical faults - are re-rendered from the real tokenizer's spans under two seeded layouts using the same NeedsSep rule; Ok texts must be identical after deleting the // @sha256 line, errors identical after mapping every byte position through the token map.",
+   note="Layouts are drawn by a seeded python RNG from the atom lists (deviation from the design's TLC-simulation idea: no added value). Token spans come from the real tokenizer (checked by C08)."),
  "C05": dict(engine="hygiene", design="5 C05, 3.7, Appendix C",
    technique="TLC model checking of Hygiene.tla (sequential identifier allocator + namespace/scope model of the emitted module) over all assignments of hostile pool names to user roles + comparison of the real allocator's choices (hook) + rustc compilation of every real emitted module on its own with derive-less payload types",
    text="Hygiene.tla models create_unique_identifier as a sequential process over the growing used-set (twelve requests in code order) and the emitted module as binding sites per namespace (module types, module values incl. tuple/unit struct constructors, variant namespaces of the internal enums) and name-based use sites with Rust's resolution rule (the generic parameter of parse shadows module types inside parse; Self::Error vs a variant named Error). TLC checks for every assignment of 30 hostile names (all preferred internal names, their ...2 forms, S, T, Terminal, Error, Item, Shift, S0, R0, letter-less identifiers) to one role exhaustively and to pairs of roles (sample quick, all 18 672 thorough) that no namespace binds a name twice and every use resolves as intended. Each naming is instantiated, generated for real, the allocator's recorded choices compared, and the emitted module compiled alone by rustc in a crate that only defines payload types without derives; boundary grammars (no terminals, variant-less enums, only `_` fields, letter-less names) likewise.",
